@@ -87,6 +87,10 @@ SCHEMA_LAYOUTS = [
                   'x/t.xml': _sch(_T('ta')), 'r.xml': _sch(_K('kr')),
                   't.xml': _sch(_T('tdecoy')), 'x/y/r.xml': _sch(_K('kdecoy'))},
      [['km', 'kr', 'kt'], ['ta']]),
+    # two resources whose URLs differ in letter case only are two resources
+    ('a/main.xml', {'a/main.xml': _sch('<import src="lib/t.xml"/><import src="Lib/t.xml"/>' + _K('kt'), extends='B.xml b.xml'),
+                    'a/lib/t.xml': _sch(_T('ta')), 'a/Lib/t.xml': _sch(_T('tb')),
+                    'a/b.xml': _sch(_K('kb')), 'a/B.xml': _sch(_K('k2'))}, [['k2', 'kb', 'kt'], ['ta', 'tb']]),
     # a fragment identifier on ANY of several bases (also not the last one) is refused
     ('a/main.xml', {'a/main.xml': _sch(_K('kt'), extends='b1.xml#types b2.xml'),
                     'a/b1.xml': _sch(_K('k1')), 'a/b2.xml': _sch(_K('k2'))}, 'REJECT'),
@@ -115,6 +119,9 @@ TREE_FILES = {
     _D1 + '/~x.conf': 'kc d1-tilde\n',
     _D1 + '/~/t.conf': 'kc d1-tildedir\n',
     'shared+&;.conf': 'kc root-shared\n',
+    # a file name containing U+2028 (a line boundary for str.splitlines, not for the reader) named in an %include
+    _D1 + '/ls.conf': 'kc d1-ls\n%include part\u2028two.conf\nkc after\n',
+    _D1 + '/part\u2028two.conf': 'kc d1-part\n',
     # references written with percent escapes (the only way to name a file with a blank in 'extends')
     _D1 + '/pct.conf': 'kc d1-pct\n%include sub%20s/inc%20[3].conf\n%include ../shared%2B&;.conf\n',
     _D1 + '/pct.xml': '<schema extends="base~+&amp;;x.xml sub%20s/b%20x.xml"><import src="sub%20s/t%20[2].xml"/><multikey name="kc"/></schema>',
@@ -152,6 +159,9 @@ TREE_CASES = [
                          ('url', _D2, _D1 + '/pct.xml'), ('filerel', _D1 + '/sub s', _D1 + '/pct.xml')],
      [['kbase', 'kblank', 'kc'], ['d1-pct', 'd1-inc', 'd1-tilde', 'root-shared']] + [['d1-pct', 'd1-inc', 'd1-tilde', 'root-shared']] * 3
      + [['kbase', 'kblank', 'kc']] * 2),
+    ('line-separator-in-a-name', [('abs', '.', _D2 + '/schema.xml'), ('abs', '.', _D1 + '/ls.conf'), ('rel', _D2, _D1 + '/ls.conf'),
+                                  ('url', '.', _D1 + '/ls.conf'), ('fileabs', _D2, _D1 + '/ls.conf'), ('filerel', _D1, _D1 + '/ls.conf')],
+     [['k2', 'kc']] + [['d1-ls', 'd1-part', 'after']] * 5),
     # a relative path whose first component is '~'
     ('tilde-dir', [('abs', '.', _D2 + '/schema.xml'), ('rel', _D1, _D1 + '/~/t.conf', '~/t.conf'),
                    ('rel', _D2, _D2 + '/~/t.conf', '~/t.conf'), ('filerel', _D1, _D1 + '/~/t.conf', '~/t.conf'),
@@ -176,7 +186,7 @@ class C18(Harness):
     assumptions = (
         'REDUCED SCOPE: the agreement of path / relative path / file: URL / open-file entry points on real '
         'directory layouts, working directories and file names is NOT decided by the solver (C-level os '
-        'and urllib I/O cannot take symbolic values); a CONCRETE supplement runs 5 scenario sequences on one '
+        'and urllib I/O cannot take symbolic values); a CONCRETE supplement runs 6 scenario sequences on one '
         'real temp tree (names with space [ ] ~ + & ; and a non-ASCII letter, 3 working directories, the same '
         'relative string re-used after chdir) - enumeration, not a bounded-exhaustive claim',
         'strings ending in "#" are excluded from normalizeURL (empty fragment: urlunparse re-assembly)',
